@@ -12,6 +12,7 @@ import numpy as np
 
 from rv import core, zoo, monitors
 
+ANCHORS = ['to_mef']      # functions the property is anchored in: never entered => inconclusive
 LEVEL = 'exploration'
 LEVEL_TEXT = 'Contract on the real to_mef with distinct injective curves and every permutation of the pairing; covered requests must equal their own curve bitwise, others stay bit-identical, uncovered requests and length mismatches must raise; also evaluated on the partial built by get_transform_fxn (C02) and in the Excel workflow. Exploration.'
 TECHNIQUE = 'runtime contract on to_mef (own-curve oracle with distinct injective curves) + refusal driver'
